@@ -432,8 +432,8 @@ package internal
 //@   property C06
 //@   requires entry != nil && entry.Data != nil                                     # name: entry-well-formed
 //@   requires storableStatus(entry.Data.StatusCode)                                 # name: status-storable
-//@   assigns storeWrites, lastSetOK
-//@   ensures lastSetOK == (result == nil)
+//@   assigns storeWrites, lastSetOK, entry.Data.Body
+//@   ensures lastSetOK == (result == nil)                                           # ghost-update
 //@ iface ResponseCache.SetRefs(c, key, refs)
 //@   property C06
 //@   requires lastSetOK                                                             # name: entry-was-stored
@@ -446,7 +446,7 @@ package internal
 //@   requires req != nil && resp != nil && resp.Header != nil                       # name: well-formed
 //@   requires storableReq(req)                                                      # name: request-storable
 //@   requires storableResp(resp)                                                    # name: response-storable
-//@   assigns storeWrites, lastSetOK, map(resp.Header), elems(refs), now
+//@   assigns storeWrites, lastSetOK, map(resp.Header), resp.Body, elems(refs), now
 //@   ensures resp.Header != nil
 
 //@ iface CacheInvalidator.InvalidateCache(ci, reqURL, respHeader, refs, key)
@@ -617,3 +617,26 @@ package internal
 //@   pure
 //@   ensures len(result) == len(s) && cap(result) >= len(s) + n && (forall i int :: 0 <= i && i < len(s) ==> result[i] == s[i])
 //@   ensures sameArray(result, s) || fresh(result)
+
+// writes the metadata line to the writer it is given and nothing else
+//@ func (*Response).WriteTo
+//@   trusted
+//@   pure
+//@ func (Response).MarshalBinary
+//@   property C06 C05
+//@   nosafety
+//@   requires r.Data != nil
+//@   assigns r.Data.Body
+//@   ensures result1 != nil ==> len(result0) == 0                    # name: no-bytes-on-error
+//@ func (*responseCache).Set
+//@   implements ResponseCache.Set
+//@   property C06 C10
+//@   requires r != nil && r.cache != nil
+//@ func (*responseCache).SetRefs
+//@   implements ResponseCache.SetRefs
+//@   property C06 C10
+//@   requires r != nil && r.cache != nil
+//@ func (*responseCache).Delete
+//@   implements ResponseCache.Delete
+//@   property C07 C10
+//@   requires r != nil && r.cache != nil
